@@ -361,6 +361,24 @@ def twin_algorithms(ctx, rng, cls, fields, tag):
     D = make_data(rng, multi)
     P1, _ = spec(cls)
     s = new_setup(D)
+    base = cls.split("+")[0]
+    if base in ("SSIcov", "SSIdat", "SSIcov_MS", "SSIdat_MS") and "+" not in cls and rng.random() < 0.4:
+        # a data-driven and a covariance-driven analysis configured by ONE parameter object that leaves the method to each class
+        other = base.replace("cov", "dat") if "cov" in base else base.replace("dat", "cov")
+        Pn = {k: copy.deepcopy(v) for k, v in P1.items() if k != "method"}
+        rp = algcls(base).RunParamCls(**copy.deepcopy(Pn))
+        order = [base, other] if rng.random() < 0.5 else [other, base]
+        algs = [algcls(c)(run_params=rp, name=f"x_{c}") for c in order]
+        s.add_algorithms(*algs)
+        s.run_all()
+        m = mpe_args(base, Pn, D["fn"])
+        for a_ in algs:
+            do_mpe(s, a_.name, m)
+        ctx.ev(tag)
+        for c, a_ in zip(order, algs):
+            _cmp(ctx, a_, fresh(c, Pn, D, m), fields, "twin_algorithms", cls,
+                 f"{order[0]} and {order[1]} sharing one run-parameter object (method left to the class): {c}'s result differs from a lone {c}'s")
+        return
     if rng.random() < 0.5:
         t1, t2 = make_alg(cls, P1, name="t1"), make_alg(cls, P1, name="t2")
         shared = False
